@@ -40,7 +40,7 @@ DIMS = {
     "rad_gt": ["none", "rot", "nonuniform", "skew", "translate", "rotscale"],
     "rad_spread": ["pad", "repeat", "reflect"],
     "rad_stops": ["two", "three", "stopop"],
-    "grp": ["g05", "none", "nested", "gradgrp", "reusedgrp", "twocopies", "samecopies", "siblings", "emptyglyph"],
+    "grp": ["g05", "none", "nested", "gradgrp", "reusedgrp", "twocopies", "samecopies", "sparse3", "siblings", "emptyglyph"],
     "seqlen": [1, 2, 3],
     "nglyphs": [2, 1, 3],
     "where": ["other", "same", "both"],
@@ -296,6 +296,9 @@ def mk(a):
     elif g == "samecopies":  # a group that holds the same outline twice with the very same paint, at two places
         copy_b = Shape(place(copy_d, aff.tr(14 * kB, 22 * kB)), copy_paint, opacity=copy_op, label="copy-again")
         b_nodes = [tri, Group(0.5, [copy, copy_b]), ov]
+    elif g == "sparse3":  # three members: z-order neighbours are disjoint, the first and the third overlap
+        b_nodes = [copy, Group(0.5, [tri, Shape(PB(OUT["quad"], aff.tr(2, 2)), Solid("orange"), label="quad-far"),
+                                     Shape(PB(OUT["tri"], aff.tr(52, 62)), Solid("blue"), label="tri-over-tri")])]
     elif g == "siblings":
         b_nodes = [Group(0.5, [copy, tri]), Group(0.8, [ov, Shape(PB(OUT["tri"], aff.tr(50, 20)), Solid("yellow"), label="tri2")])]
     else:
